@@ -8,6 +8,7 @@ import (
 	"sort"
 	"strconv"
 	"strings"
+	"sync"
 	"time"
 
 	"github.com/btcsuite/btcd/btcutil"
@@ -15,6 +16,7 @@ import (
 	"github.com/btcsuite/btcd/wire"
 	"github.com/btcsuite/btcwallet/chain"
 	"github.com/btcsuite/btcwallet/waddrmgr"
+	"github.com/btcsuite/btcwallet/wallet"
 	"github.com/btcsuite/btcwallet/walletdb"
 	"github.com/btcsuite/btcwallet/wtxmgr"
 
@@ -32,6 +34,11 @@ import (
 //   dupc | duptx h=<n> | mtx tx=<id>                   repeated BlockConnected(tip) / RelevantTx / unmined tx
 //   raw k=<c|d> id=<k>                                 malformed stream: a notification the backend state does not justify
 //   stop | start recw=<n> | startx id=<k> mode=<m> | state | hashes from=<a> to=<b>
+//
+// Every reply that shows the running wallet ("run ...") ends with ` ntf=<n1>|<n2>|...`: the TransactionNotifications the
+// wallet's NotificationServer delivered to a client (registered before SynchronizeRPC) since the previous such reply,
+// each as `A=<height>:<block id>[<tx>+<tx>]/...,D=<block id>/...,U=<tx>` (attached blocks in order, detached block
+// hashes in order, newly added unmined transactions).
 
 var namespaces = struct{ addr, tx []byte }{[]byte("waddrmgr"), []byte("wtxmgr")}
 
@@ -62,9 +69,223 @@ type syncRunner struct {
 	brokenReported bool
 	recoveryTaint  bool // a start-up with a recovery window left stale state behind: later violations are its consequences
 	broken    bool           // RangeTransactions failed: the transaction store is inconsistent (sticky)
+
+	// NotificationServer client of the running wallet and the notification oracle's view
+	col      *ntfnCollector
+	cchain   []chainhash.Hash // the chain a client following the attached blocks has (index = height)
+	sentDisc []chainhash.Hash // hashes of the BlockDisconnected notifications that make disconnectBlock notify, in order
+	gotDet   []chainhash.Hash // DetachedBlocks delivered so far, in order
 }
 
+// ntfnCollector receives from the (unbuffered) TransactionNotifications channel of one wallet object.
+type ntfnCollector struct {
+	client wallet.TransactionNotificationsClient
+	mu     sync.Mutex
+	got    []*wallet.TransactionNotifications
+	ping   chan chan struct{}
+	quit   chan struct{}
+}
+
+func newCollector(w *wallet.Wallet) *ntfnCollector {
+	c := &ntfnCollector{client: w.NtfnServer.TransactionNotifications(), ping: make(chan chan struct{}), quit: make(chan struct{})}
+	go func() {
+		for {
+			select {
+			case n, ok := <-c.client.C:
+				if !ok {
+					return
+				}
+				c.mu.Lock()
+				c.got = append(c.got, n)
+				c.mu.Unlock()
+			case ack := <-c.ping:
+				ack <- struct{}{}
+			case <-c.quit:
+				return
+			}
+		}
+	}()
+	return c
+}
+
+// drain returns what was delivered so far.  The wallet's handler has finished the notifications the engine sent (the
+// sentinel was accepted), so every send to the client channel has completed; the ping makes sure the collector has
+// stored what it received.
+func (c *ntfnCollector) drain() []*wallet.TransactionNotifications {
+	ack := make(chan struct{})
+	select {
+	case c.ping <- ack:
+		<-ack
+	case <-c.quit:
+	}
+	c.mu.Lock()
+	defer c.mu.Unlock()
+	out := c.got
+	c.got = nil
+	return out
+}
+
+func (c *ntfnCollector) stop() {
+	select {
+	case <-c.quit:
+	default:
+		close(c.quit)
+	}
+}
+
+// register attaches a fresh client to the wallet object that is about to be started and resets the oracle's view: a
+// client that (re)connects learns the chain from the backend, not from notifications.
+func (r *syncRunner) register() {
+	if r.col != nil {
+		r.col.stop()
+	}
+	r.col = newCollector(r.env.w)
+	r.cchain, r.sentDisc, r.gotDet = nil, nil, nil
+}
+
+func (r *syncRunner) resetClientChain() {
+	r.cchain = nil
+	for h := int32(0); ; h++ {
+		b := r.env.fc.at(h)
+		if b == nil {
+			break
+		}
+		r.cchain = append(r.cchain, b.hash)
+	}
+}
+
+// disconnectNotifies reports whether disconnectBlock will reach notifyDetachedBlock for b (it returns early with an
+// error when b's height is at or below the tip but no hash is remembered for it).
+func (r *syncRunner) disconnectNotifies(b *fblock) bool {
+	w := r.env.w
+	if !w.ChainSynced() {
+		return false
+	}
+	if b.height > w.Manager.SyncedTo().Height {
+		return true
+	}
+	ok := false
+	_ = walletdb.View(w.Database(), func(tx walletdb.ReadTx) error {
+		_, err := w.Manager.BlockHash(tx.ReadBucket(namespaces.addr), b.height)
+		ok = err == nil
+		return nil
+	})
+	return ok
+}
+
+// ntfns drains the client, renders the delivered notifications and runs the notification oracle:
+//   - the DetachedBlocks delivered so far are, in order, the hashes of the disconnected blocks the engine sent
+//     (key ntfn.detached-mismatch); when a notification with attached blocks is delivered none is outstanding
+//     (ntfn.detached-missing);
+//   - every attached block is a block of the backend with that height, its transactions are transactions of that
+//     block (ntfn.attached-unknown-block, ntfn.tx-not-in-block);
+//   - a client that follows the attached blocks (block at height h replaces what it has from h up; a block it already
+//     has at that height changes nothing) never sees a gap (ntfn.attached-gap) and, whenever a notification with
+//     attached blocks was delivered during the op, ends the op with exactly the backend's best chain
+//     (ntfn.replay-mismatch).
+func (r *syncRunner) ntfns() (string, string) {
+	if r.col == nil {
+		return "", ""
+	}
+	got := r.col.drain()
+	var out, v []string
+	flushed := false
+	add := func(s string) {
+		if len(v) < 3 {
+			v = append(v, s)
+		}
+	}
+	for _, n := range got {
+		var as, ds, us []string
+		for _, b := range n.AttachedBlocks {
+			var ts []string
+			fb := r.env.fc.blockByHash(*b.Hash)
+			for _, t := range b.Transactions {
+				id, ok := r.txID[*t.Hash]
+				if !ok {
+					id = -1
+				}
+				ts = append(ts, strconv.Itoa(id))
+				if fb != nil {
+					in := false
+					for _, spec := range r.blkTxs[fb.id] {
+						if spec.id == id {
+							in = true
+						}
+					}
+					if !in {
+						add(fmt.Sprintf("C15 key=ntfn.tx-not-in-block: transaction %d notified in attached block %d which does not contain it", id, fb.id))
+					}
+				}
+			}
+			as = append(as, fmt.Sprintf("%d:%s[%s]", b.Height, r.env.fc.idOf(*b.Hash), strings.Join(ts, "+")))
+			flushed = true
+			if fb == nil || fb.height != b.Height {
+				add(fmt.Sprintf("C15 key=ntfn.attached-unknown-block: attached block %s at height %d is not a block of the backend at that height", r.env.fc.idOf(*b.Hash), b.Height))
+				continue
+			}
+			h := int(b.Height)
+			switch {
+			case h < len(r.cchain) && r.cchain[h] == *b.Hash:
+			case h > len(r.cchain):
+				add(fmt.Sprintf("C15 key=ntfn.attached-gap: attached block %d at height %d but the notifications so far describe a chain of height %d", fb.id, h, len(r.cchain)-1))
+			default:
+				r.cchain = append(r.cchain[:h:h], *b.Hash)
+			}
+		}
+		for _, d := range n.DetachedBlocks {
+			ds = append(ds, r.env.fc.idOf(*d))
+			r.gotDet = append(r.gotDet, *d)
+		}
+		for _, t := range n.UnminedTransactions {
+			id, ok := r.txID[*t.Hash]
+			if !ok {
+				id = -1
+			}
+			us = append(us, strconv.Itoa(id))
+		}
+		out = append(out, "A="+strings.Join(as, "/")+",D="+strings.Join(ds, "/")+",U="+strings.Join(us, "/"))
+	}
+	if r.malformed {
+		return strings.Join(out, "|"), ""
+	}
+	for i, d := range r.gotDet {
+		if i >= len(r.sentDisc) || r.sentDisc[i] != d {
+			exp := "none"
+			if i < len(r.sentDisc) {
+				exp = r.env.fc.idOf(r.sentDisc[i])
+			}
+			add(fmt.Sprintf("C15 key=ntfn.detached-mismatch: detached block #%d notified is %s, the block disconnected was %s", i, r.env.fc.idOf(d), exp))
+			break
+		}
+	}
+	if flushed && len(r.gotDet) < len(r.sentDisc) {
+		add(fmt.Sprintf("C15 key=ntfn.detached-missing: a notification with attached blocks was delivered but only %d of %d disconnected blocks were notified as detached", len(r.gotDet), len(r.sentDisc)))
+	}
+	if flushed {
+		okc := len(r.cchain) == int(r.env.fc.tip().height)+1
+		for h := 0; okc && h < len(r.cchain); h++ {
+			if b := r.env.fc.at(int32(h)); b == nil || b.hash != r.cchain[h] {
+				okc = false
+			}
+		}
+		if !okc {
+			tip := "-"
+			if len(r.cchain) > 0 {
+				tip = r.env.fc.idOf(r.cchain[len(r.cchain)-1])
+			}
+			add(fmt.Sprintf("C15 key=ntfn.replay-mismatch: following the attached blocks gives a chain of height %d with tip %s, backend best chain has height %d tip %d", len(r.cchain)-1, tip, r.env.fc.tip().height, r.env.fc.tip().id))
+		}
+	}
+	return strings.Join(out, "|"), strings.Join(v, "; ")
+}
+
+
 func (r *syncRunner) Close() {
+	if r.col != nil {
+		r.col.stop()
+		r.col = nil
+	}
 	if r.env != nil {
 		r.env.close()
 		r.env = nil
@@ -102,6 +323,16 @@ func parseTxSpecs(s string) []txSpec {
 }
 
 func (r *syncRunner) Exec(op string) (string, string) {
+	reply, v := r.exec1(op)
+	if strings.HasPrefix(reply, "run ") {
+		ns, nv := r.ntfns()
+		reply += " ntf=" + ns
+		v = joinV(v, nv)
+	}
+	return reply, v
+}
+
+func (r *syncRunner) exec1(op string) (string, string) {
 	kind, kv := core.KV(op)
 	if kind != "init" && r.env == nil {
 		return "bad-op", ""
@@ -128,6 +359,8 @@ func (r *syncRunner) Exec(op string) (string, string) {
 		if err := env.create(seedFor(1), params.GenesisBlock.Header.Timestamp.Add(-240*time.Hour), r.recW); err != nil {
 			return "err create " + err.Error(), ""
 		}
+		r.register()
+		r.resetClientChain()
 		if !env.startSync(10 * time.Second) {
 			return "sync-stuck", ""
 		}
@@ -192,6 +425,7 @@ func (r *syncRunner) Exec(op string) (string, string) {
 		}
 		if r.env.running {
 			for _, b := range dropped {
+				r.sentDisc = append(r.sentDisc, b.hash)
 				if !r.env.fc.deliver(chain.BlockDisconnected(b.meta())) {
 					return "deliver-timeout", ""
 				}
@@ -216,6 +450,9 @@ func (r *syncRunner) Exec(op string) (string, string) {
 			return "bad-op", "" // not stale
 		}
 		before := r.state()
+		if r.disconnectNotifies(b) {
+			r.sentDisc = append(r.sentDisc, b.hash)
+		}
 		if !r.env.fc.deliver(chain.BlockDisconnected(b.meta())) {
 			return "deliver-timeout", ""
 		}
@@ -278,6 +515,10 @@ func (r *syncRunner) Exec(op string) (string, string) {
 		}
 		return r.state(), ""
 	case "stop":
+		if r.col != nil {
+			r.col.stop()
+			r.col = nil
+		}
 		r.env.stop()
 		return r.state(), ""
 	case "start":
@@ -288,6 +529,8 @@ func (r *syncRunner) Exec(op string) (string, string) {
 		if err := r.env.reopen(r.recW); err != nil {
 			return "err open " + err.Error(), ""
 		}
+		r.register()
+		r.resetClientChain()
 		if !r.env.startSync(1500 * time.Millisecond) {
 			r.env.stop()
 			v := ""
@@ -319,6 +562,8 @@ func (r *syncRunner) Exec(op string) (string, string) {
 		if err := r.env.reopen(0); err != nil {
 			return "err open " + err.Error(), ""
 		}
+		r.register()
+		r.resetClientChain()
 		mode := kv["mode"]
 		r.env.fc.mu.Lock()
 		r.env.fc.beforeFinish = func(c *conn) {
